@@ -47,3 +47,7 @@ VARIANTS = [
     M('C02', 'refactor-sign-arms-reordered', E(BC, "        elif value == 'positive':\n            result = m > 0\n        elif value == 'non-negative':\n            result = m >= 0\n", "        elif value == 'non-negative':\n            result = m >= 0\n        elif value == 'positive':\n            result = m > 0\n"),
       kind='refactor'),
 ]
+
+VARIANTS += [
+    M('C02', 'rex-list-as-one-alternation', E(PC, "        rexes = [re.compile(r, RE_FLAGS) for r in rexes]", "        rexes = [re.compile('|'.join('(?:%s)' % r for r in rexes), RE_FLAGS)]"), rule='C02-SEM', key='each-expression'),
+]
